@@ -19,9 +19,9 @@ func init() {
 		Title: "PBF scan yields exactly the encoded header and elements, field for field",
 		Explanation: "Structural necessary conditions, decided against the format definition parsed from osmformat.proto on every run. Every rule is keyed on roles and data flow (which bytes hold which message, which read executes under which field number, which iterator field carries which column), decided on the control-flow graph through guard facts and by following static calls inside the package; names of helpers and locals, if/switch shape, branch order and the split of a decoder into methods play no role. " +
 			"(R1) descriptor agreement: every protoscan read executes under a field number the message defines (case clause, tagless switch, `== N` test, inherited through *protoscan.Message parameters) and uses the read method of that field's declared type (packed columns through Iterator with element reads and Count wire class of the column's type); every descriptor field of a decoded message is tested for; the generated struct tags agree with the .proto; " +
-			"(R2) freshness: while one DenseNodes / Way / Relation message is decoded no cached iterator left over from an earlier block or element can be used: an exact reachable-valuation analysis over found-flags, returned errors and iterator states, run from the method that receives the element's bytes with every decoder method it calls inlined, proves every use sees an iterator assigned from the current message, or nil where the use is nil-guarded; " +
-			"(R3) block parameters (granularity, offsets, date granularity, string table) are reset or re-allocated on every path from the decode entry point to the first read of a block's message (resets may live in helpers), no parameter is parsed once a group has been decoded, and the groups are only reachable through the exhausted exit of the parameter loop; " +
-			"(R4) provenance: every element field is computed from the column the format assigns to it and from no other column, through the string table / offsets / granularities / unit constants (compared by value) the format prescribes; values are traced context-sensitively through helper functions, struct fields of the package, methods of a parameter struct and setter closures handed to a helper; stores through pointers (`*p = v`, a struct of field pointers built in a composite literal) are attributed to every element field the pointer can denote; the member type may be decided by a switch, an if chain, a classifying function or a constant map of the package; " +
+			"(R2) freshness: while one DenseNodes / Way / Relation message is decoded no cached iterator left over from an earlier block or element can be used: an exact reachable-valuation analysis over found-flags, returned errors and iterator states, run from the method that receives the element's bytes with every decoder method it calls inlined, proves every use sees an iterator assigned from the current message, or nil where the use is nil-guarded; the cached iterators may be fields of the decoder itself (also promoted from a struct it embeds, which may be zeroed as a whole) or live in structs / arrays nested below it, in which case the iterator values themselves are followed through whole-struct zeroing, struct copies (a spare copy kept for allocation reuse), pointers, arguments and results of helpers; " +
+			"(R3) block parameters (granularity, offsets, date granularity, string table) are reset or re-allocated on every path from the decode entry point to the first read of a block's message (resets may live in helpers), no parameter is parsed once a group has been decoded, and the groups are only reachable through the exhausted exit of the parameter loop; the cached block is recognised through its aliases (a helper that returns it, a local re-pointed at a fresh block that is stored in the decoder, a parameter it is passed as); an eager copy of the cached block's parameters kept in the decoder must be refreshed on every path to the decoding of a group, after the parameter pass; when the decoder does not cache a generated PrimitiveBlock but keeps the parameters in variables of its own (a parameter struct by value or pointer, built per block by a helper and stored in the decoder, or scalar fields), the cells are found by provenance from the reads of block fields 1/17/18/19/20 and the obligations become: every path to the parsing establishes each cell's format default (a fresh holder whose cell holds the constant equal to the generated Default_PrimitiveBlock_* value, or that constant assigned), and a holder kept in the decoder is overwritten as a whole with the value built for this block on every path to the decoding of a group (publish), with no parameter parsed into another holder afterwards; " +
+			"(R4) provenance: every element field is computed from the column the format assigns to it and from no other column, through the string table / offsets / granularities the format prescribes (a parameter read through the generated getter and one the decoder read from the block's message itself are the same quantity), with the constant factor the format prescribes: the stored expression is evaluated symbolically (constants folded, locals / parameters / helper functions / result-struct fields expanded, package time modelled, integer quotient and remainder by a constant recombined) and must come out as 1e6 x (millisecond quantity) nanoseconds for timestamps and 1e-9 x every term for coordinates, however the conversion is spelled; where that evaluation is not possible the unit constant must be mentioned (compared by value); values are traced context-sensitively through helper functions (a store inside a helper with several callers is judged once per call site), method receivers, struct fields of the package, methods of a parameter struct and setter closures handed to a helper; stores through pointers (`*p = v`, a struct of field pointers built in a composite literal) are attributed to every element field the pointer can denote; the member type may be decided by a switch, an if chain, a classifying function or a constant map of the package; " +
 			"(R5, part of R4) columns marked DELTA coded reach the element through a running sum, the others do not; " +
 			"(R6) every element literal starts with Visible: true; header fields come from the same-named header getters, the bbox edges from left/right/bottom/top scaled by 1e-9, the replication timestamp only under a presence test of its field; " +
 			"(R7, shared with C08.O5) element storage kept for reuse (tags, way nodes, members) is only re-sliced to [:0], extended by append of whole elements or replaced by zeroed make: a reused, non-zeroed backing array would let an element inherit a value (e.g. node coordinates) from an earlier element. " +
@@ -42,8 +42,8 @@ func init() {
 			{ID: "R8", Floor: 1, Doc: "every block a worker receives yields one result pair: no block's elements are dropped or reordered (same necessary condition as C08.O6)", Run: c08O6},
 			{ID: "R7", Floor: 5, Doc: "reused element storage is never re-exposed without zeroing (same necessary condition as C08.O5)", Run: c08O5},
 		},
-		Benign: append(append(append(append(append([]core.Mutant{}, c01Benign...), c01Benign2...), c01Benign3...), c01Benign4...), c01Benign5...),
-		Mutants: append(append(append([]core.Mutant{}, c01Mutants2...), c01Mutants3...), []core.Mutant{
+		Benign: append(append(append(append(append(append(append([]core.Mutant{}, c01Benign...), c01Benign2...), c01Benign3...), c01Benign4...), c01Benign5...), c01Benign6...), c01Benign7...),
+		Mutants: append(append(append(append(append([]core.Mutant{}, c01Mutants2...), c01Mutants3...), c01Mutants4...), c01Mutants5...), []core.Mutant{
 			{Name: "dense-uid-int32", File: "osmpbf/decode_data.go", Find: "v5, err := dec.uids.Sint32()", Replace: "v5, err := dec.uids.Int32()", ExpectRule: "R1", ExpectConstruct: "uids"},
 			{Name: "info-uid-as-uint32", File: "osmpbf/decode_data.go", Find: "\t\t\t\tcase 4:\n\t\t\t\t\tv, err := info.Int32()\n\t\t\t\t\tif err != nil {\n\t\t\t\t\t\treturn nil, err\n\t\t\t\t\t}\n\t\t\t\t\tway.UserID", Replace: "\t\t\t\tcase 4:\n\t\t\t\t\tv, err := info.Uint32()\n\t\t\t\t\tif err != nil {\n\t\t\t\t\t\treturn nil, err\n\t\t\t\t\t}\n\t\t\t\t\tway.UserID", ExpectRule: "R1", ExpectConstruct: "scanWays"},
 			{Name: "lat-lon-cases-swapped", File: "osmpbf/decode_data.go", Find: "\t\tcase 8: // lat\n\t\t\tdec.lats, err = msg.Iterator(dec.lats)\n\t\t\tfoundLats = true\n\t\tcase 9: // lon\n\t\t\tdec.lons, err = msg.Iterator(dec.lons)\n\t\t\tfoundLons = true", Replace: "\t\tcase 9: // lat\n\t\t\tdec.lats, err = msg.Iterator(dec.lats)\n\t\t\tfoundLats = true\n\t\tcase 8: // lon\n\t\t\tdec.lons, err = msg.Iterator(dec.lons)\n\t\t\tfoundLons = true", ExpectRule: "R4", ExpectConstruct: "Node.Lat"},
@@ -409,10 +409,6 @@ func c01R3(r *core.R) {
 			pbField = st.Field(i)
 		}
 	}
-	if pbField == nil {
-		r.Anchor("cached PrimitiveBlock field of the per-worker decoder")
-		return
-	}
 	// the block message variable (the one created from the block's bytes, not a parameter bound to it)
 	var blockVar *c01MsgVar
 	for _, mv := range cm.vars {
@@ -425,6 +421,16 @@ func c01R3(r *core.R) {
 		return
 	}
 	bs := blockVar.fi
+	if pbField == nil {
+		// no cached generated block: the decoder keeps the parameters in variables of its own
+		if isW := c01R3Holder(r, cm, blockVar, false, nil); isW != nil {
+			c01R3Groups(r, cm, bs, isW)
+			return
+		}
+		r.Anchor("cached PrimitiveBlock field of the per-worker decoder, or variables of the decoder that carry the block parameters")
+		return
+	}
+	ba := c01NewBlockAlias(cm, pbField)
 	// which parameters of the cached block are read in the worker role through the generated getters
 	needed := map[string]token.Pos{}
 	neededSrc := map[string]string{}
@@ -447,6 +453,11 @@ func c01R3(r *core.R) {
 			}
 			// the getter is applied to the cached block (directly or through a local that aliases it)
 			viaBlock := usesField(info, call, pbField)
+			if sel, ok := ast.Unparen(call.Fun).(*ast.SelectorExpr); ok && !viaBlock {
+				if thr, _ := ba.through(fi.Decl.Body, sel.X); thr {
+					viaBlock = true
+				}
+			}
 			if sel, ok := ast.Unparen(call.Fun).(*ast.SelectorExpr); ok && !viaBlock {
 				for _, fl := range c01ChainFields(info, c01Chain(info, fi.Decl.Body, sel.X)) {
 					if fl == pbField {
@@ -481,6 +492,9 @@ func c01R3(r *core.R) {
 	}
 	// throughBlock: the chain of e passes through the cached block; last = the last field selected
 	throughBlock := func(f *c01Fn, e ast.Expr) (bool, *types.Var) {
+		if thr, last := ba.through(f.body, e); thr {
+			return true, last
+		}
 		flds := c01ChainFields(info, c01Chain(info, f.body, e))
 		for _, fl := range flds {
 			if fl == pbField {
@@ -622,6 +636,29 @@ func c01R3(r *core.R) {
 			return true
 		})
 		return hit
+	}
+	c01R3Groups(r, cm, bs, isParamWrite)
+	// an eager copy of the cached block's parameters kept in the decoder must be refreshed for every block
+	c01R3Holder(r, cm, blockVar, true, isParamWrite)
+}
+
+// c01R3Groups: the parameters of a block are parsed before any of its groups is decoded (isParamWrite recognises a
+// CFG node that stores a block parameter).
+func c01R3Groups(r *core.R, cm *c01Model, bs *FuncInfo, isParamWrite c01EventPred) {
+	info := cm.m.info
+	fs := r.P.Fset
+	isParse := func(f *c01Fn, n ast.Node) bool {
+		return c01ContainsCall(n, func(call *ast.CallExpr) bool {
+			if !isMethod(callee(info, call), protoscanMsg, "Next") {
+				return false
+			}
+			sel, ok := ast.Unparen(call.Fun).(*ast.SelectorExpr)
+			if !ok {
+				return false
+			}
+			mv := cm.msgVarOf(sel.X)
+			return mv != nil && mv.msg == "PrimitiveBlock"
+		})
 	}
 	isGroupDecode := func(f *c01Fn, n ast.Node) bool {
 		return c01ContainsCall(n, func(call *ast.CallExpr) bool {
